@@ -758,6 +758,10 @@ impl Qcow2HeaderExtension {
                 Qcow2HeaderExtensionType::FeatureNameTable => {
                     let mut feats = HashMap::new();
                     for feat in data.chunks(48) {
+                        // a trailing partial entry isn't an entry
+                        if feat.len() < 48 {
+                            break;
+                        }
                         let feat_type: Qcow2FeatureType = match feat[0].try_into() {
                             Ok(ft) => ft,
                             Err(_) => continue, // skip unrecognized entries
